@@ -46,6 +46,7 @@ type JNode struct {
 	opaque  Value
 	otype   types.Type
 	closed  bool // lazy object: key set fixed
+	lenVar  *Term
 	extra   *JNode
 }
 
